@@ -630,6 +630,7 @@ func sourcesOf(tier string, emit func(*source)) {
 	familyNames(emit)
 	familyCurrent(emit)
 	familyLegacy(emit)
+	familyLegacySpellings(emit)
 	if tier == "quick" {
 		familyGraphs(2, []string{"A", "N", "W", "WT", "S", "R", "Es", "Eot"}, emit)
 		familyLegacyGraphs(3, emit)
@@ -709,13 +710,14 @@ func guards(r *mc.Result, tier string) []string {
 			f = append(f, msg)
 		}
 	}
-	for _, fam := range []string{"template-position", "types", "language", "names", "graph", "current", "legacy-ruleset", "legacy-action", "legacy-header", "legacy-graph"} {
+	for _, fam := range []string{"template-position", "types", "language", "names", "graph", "current", "legacy-ruleset", "legacy-action", "legacy-header", "legacy-graph", "legacy-spelling"} {
 		need(r.Counters["valid_sources:"+fam] > 0, "no valid sources of family "+fam)
 	}
 	for _, v := range append(append([]string{}, allVersions...), "legacy") {
 		need(r.Counters["valid_sources_at:"+v] > 0, "no valid sources at "+v)
 	}
 	need(r.Counters["valid_sources"] >= 10000, "fewer than 10000 valid sources")
+	need(r.Counters["valid_sources:legacy-spelling"] >= 350, "fewer than 350 legacy spelling sources")
 	need(r.Counters["source_x_target_migrations"] >= 5*r.Counters["valid_sources"], "fewer than 5 migrations per source on average")
 	need(r.Facts["template_rewritten"] > 0, "no template was ever rewritten")
 	need(r.Facts["template_value_from_webhook_preserved"] > 0, "no template drew its value from @webhook")
@@ -737,12 +739,15 @@ func init() {
 		Rule: "(i) bounded exhaustive enumeration of valid old definitions, each migrated by the real MigrateToVersion / MigrateToLatest to every newer version in one go and stepwise, loaded by the real ReadFlow and compared with the source: " +
 			"every template position of every action and router type x 30 @webhook templates (none rebinding webhook as a lambda parameter) x translations x templating shapes, every action / router / wait / hint type, flow languages x localisation keys, result and category names around the 64 / 36 limits (ASCII, multi-byte, all-space), " +
 			"all canonical flow graphs of <= 2 (thorough: 3) nodes over the structural node alphabet, each at each of 13.0 ... 13.5, definitions already current (three formattings); legacy definitions: every ruleset_type (subflow, webhook, resthook, form_field, flow_field, contact_field, expression, group, random, airtime incl. two countries sharing currency and amount, every wait_*), every rule test type, every action type, rules of one category sharing a destination, " +
-			"entry listed after other nodes, header forms, and all canonical legacy graphs of <= 3 (thorough: 4) nodes x every entry x layout. " +
+			"entry listed after other nodes, header forms, and all canonical legacy graphs of <= 3 (thorough: 4) nodes x every entry x layout; " +
+			"legacy spellings of every legacy string member whose migrated counterpart the current spec validates against an enumeration or a pattern: webhook_action {absent, null, \"\", all 2^n upper / lower case spellings of GET HEAD POST PUT PATCH DELETE} x {without, with headers}, flow_type and ruleset_type {absent, null}, " +
+			"save.field over contact properties, tel_e164, every current and some retired URN schemes and scheme-like field keys, reply / send media in 17 forms (full / bare / missing content type, relative / absolute / templated URL) x translated or not. " +
 			"(ii) fault enumeration on definition JSON: for each seed (every legacy rule set and action source, one rich definition per 13.x version) every JSON path x every replacement from a fixed list (delete, null, true, 0, -1, 1.5, \"\", \"x\", \"@(\", [], {}, [null], {\"uuid\":1}, [[]], duplicate of the previous UUID, every other value of the member's type enumeration), every byte-prefix truncation raw and with the open brackets closed, and (thorough) all pairs of faults from {delete, null, \"\", {}} on the legacy rule set seeds. " +
 			"A case is distinct by its bytes; distinct_nontrivial counts valid sources plus faulted inputs that are well-formed JSON.",
 		Assumptions: []string{
 			"validity at an old version is taken from the shapes the repository's own migration test data and template catalogs (specdata/templates.json) show for that version; result names use the character set the current validator accepts (the statement speaks of over-long names only)",
 			"a legacy airtime rule set with different amounts in one currency is rejected on purpose (not representable) and is not in the valid space",
+			"legacy spellings: the legacy reader validates none of these members, so a legacy definition is taken to be valid with an HTTP method in any letter case (the migration upper-cases it), with flow_type / ruleset_type missing (the migration defaults them) and with an attachment without content type (the migration defaults it to image); methods outside the six of the current spec are not in the valid space",
 			"template values are compared in one fixed context (@webhook bound to a JSON body before 13.3, to an object with that body as .json from 13.3)",
 			"faults: all single deviations from the seeds (pairs in thorough), not all byte strings",
 		},
